@@ -171,6 +171,25 @@ def run_case(ctx, i, rng):
                 ctx.count("deep_sharing_chains_planted")
             except ValueError:
                 pass
+    if i % 4 == 3 or i % 9 == 4:
+        # an earlier look at part of the design: a second netlist object whose top is an instance BELOW this netlist's top (a
+        # "view"), or the top moved down with one spelling of the call and back with the other - this netlist's top is what it was
+        topd = n.top_instance.reference
+        below = [c_ for c_ in topd.children if c_.reference is not None and c_.reference.children]
+        below += [g_ for c_ in below for g_ in c_.reference.children if g_.reference is not None and g_.reference.children]
+        if below:
+            m_ = rng.choice(below)
+            real_top = n.top_instance
+            if rng.random() < 0.5:
+                view = sdn.Netlist("view")
+                view.top_instance = m_
+                if rng.random() < 0.5:
+                    view.top_instance = None
+            else:
+                n.top_instance = m_
+                n.set_top_instance(real_top)
+            assert n.top_instance is real_top
+            ctx.count("histories_with_the_top_elsewhere_before")
     e0 = Elab(n, max_occ=2500)
     if e0.truncated:
         ctx.count("discarded_too_large")
